@@ -210,7 +210,9 @@ func (d *dataTracer) traceMessageLocked(data []byte) (int, bool) {
 	if d.endStream != nil { //nolint:nestif
 		_, _ = d.endStream.Write(data[:need])
 		var content string
-		if d.decompressor == nil {
+		if d.decompressor == nil || d.env.Flags&0x01 == 0 {
+			// Not compressed: even if a compression was negotiated, it only
+			// applies to messages whose compressed flag is set.
 			content = d.endStream.String()
 		} else {
 			var uncompressed bytes.Buffer
